@@ -308,7 +308,27 @@ def part_validators(ctx):
         ctx.case({'tolerance': tol, 'accepted': k == 'out'}, kind='validator')
 
 
+def part_zero_answers(ctx):
+    """a percentage tolerance is a percentage of |expected|: when the author's value is exactly zero only an exactly zero submission matches
+    (scalars, vectors, matrices; formulas that are identically zero)"""
+    from mitxgraders import FormulaGrader, NumericalGrader, MatrixGrader
+    for tol in ['5%', '1%', '0.01%', ' 12.5 %', '50%']:
+        specs = [('Formula', lambda: FormulaGrader(answers='x - x', variables=['x'], tolerance=tol), [('0', True), ('x*0', True), ('2*x - x - x', True), ('0.04', False), ('1e-9', False), ('x/1000', False), ('0-0.0001', False)]),
+                 ('Numerical', lambda: NumericalGrader(answers='0', tolerance=tol), [('0', True), ('1-1', True), ('0.04', False), ('1e-12', False), ('0-0.001', False)]),
+                 ('Matrix', lambda: MatrixGrader(answers='[0, 0]', tolerance=tol), [('[0, 0]', True), ('[1,1] - [1,1]', True), ('[0.01, 0]', False), ('[0, 1e-9]', False), ('[0.03, 0.03]', False)]),
+                 ('MatrixMixed', lambda: MatrixGrader(answers='[[1, 0], [0, 0]]', tolerance=tol, max_array_dim=2), [('[[1, 0], [0, 0]]', True), ('[[1, 0], [0, 2]]', False)])]
+        for name, mk, probes in specs:
+            g = mk()
+            for stu, want in probes:
+                k, v = D.run_impl(lambda: g(None, stu))
+                case = {'part': 'zero-answer', 'grader': name, 'tolerance': tol, 'student': stu}
+                ctx.case(case, nontrivial_key=('zero', name, tol, stu), kind='zero-answer')
+                if not (k == 'out' and (v['ok'] is True) == want):
+                    ctx.violation('the author\'s value is exactly zero, tolerance %s of it is zero: %r should be %s' % (tol, stu, 'accepted' if want else 'refused'), case, impl=v if k == 'err' else GG.canon_result(v))
+
+
 def run(ctx):
+    part_zero_answers(ctx)
     part_within(ctx)
     part_graders(ctx)
     part_sampled_functions(ctx)
